@@ -98,6 +98,59 @@ HARNESS h_simd_fmla() {
   } else V_WITNESS("fmla-refused");
 }
 
+// Integer multiply family by element (AsmJit class ISimdVVVe): MLA/MLS/MUL, SMULL/UMLAL.. (long, with the "2" variants),
+// SQDMULH/SQRDMULH/SQRDMLAH (vector and scalar), SQDMLAL/SQDMULL2.   0 Q U 01111 size L M Rm opcode H 0 Rn Rd ; scalar: 01 U 11111 ...
+// H elements: index = H:L:M and Rm is 4 bits (v0-v15 only); S elements: index = H:L and M:Rm is the 5-bit register number.
+HARNESS h_simd_mul_elem() {
+  uint32_t sel = nondet_u8() % 12; VSym d = nd_vec(1), n = nd_vec(1);
+  uint32_t mel = nondet_u8() & 3, midx = nondet_u8() & 15, mid = nd_vec_id();
+  Vec vm = velem(mel, midx, mid);
+  // long forms: AsmJit does not relate the destination arrangement to the source (mixed shapes are malformed operands, outside C02):
+  // the destination shape is derived from the source, only its register id stays free
+  if (sel >= 6) { d.kind = n.kind; d.q = 1; d.el = (n.el + 1) & 3; }
+  Res r; uint32_t U, opc, lng = 0; bool sat = false;   // lng: 0 same width, 1 long (64-bit source), 2 long "2" (upper half of a 128-bit source)
+  switch (sel) {
+    case 0: r = emit(Inst::kIdMla_v, mk(d), mk(n), vm); U = 1; opc = 0; break;
+    case 1: r = emit(Inst::kIdMls_v, mk(d), mk(n), vm); U = 1; opc = 4; break;
+    case 2: r = emit(Inst::kIdMul_v, mk(d), mk(n), vm); U = 0; opc = 8; break;
+    case 3: r = emit(Inst::kIdSqdmulh_v, mk(d), mk(n), vm); U = 0; opc = 12; sat = true; break;
+    case 4: r = emit(Inst::kIdSqrdmulh_v, mk(d), mk(n), vm); U = 0; opc = 13; sat = true; break;
+    case 5: r = emit(Inst::kIdSqrdmlah_v, mk(d), mk(n), vm); U = 1; opc = 13; sat = true; break;
+    case 6: r = emit(Inst::kIdSmull_v, mk(d), mk(n), vm); U = 0; opc = 10; lng = 1; break;
+    case 7: r = emit(Inst::kIdSmull2_v, mk(d), mk(n), vm); U = 0; opc = 10; lng = 2; break;
+    case 8: r = emit(Inst::kIdUmlal_v, mk(d), mk(n), vm); U = 1; opc = 2; lng = 1; break;
+    case 9: r = emit(Inst::kIdUmlal2_v, mk(d), mk(n), vm); U = 1; opc = 2; lng = 2; break;
+    case 10: r = emit(Inst::kIdSqdmlal_v, mk(d), mk(n), vm); U = 0; opc = 3; lng = 1; sat = true; break;
+    default: r = emit(Inst::kIdSqdmull2_v, mk(d), mk(n), vm); U = 0; opc = 11; lng = 2; sat = true; break;
+  }
+  C02_FRAME(r);
+  if (r.e == Error::kOk) {
+    uint32_t w = r.w, esz = lng ? n.el : d.el;    // size field = element size of the multiplicands
+    V_ASSERT(esz == 1 || esz == 2, "mul elem: H or S elements only");
+    V_ASSERT(mel == esz, "mul elem: the indexed operand has the element type of the multiplicands");
+    V_ASSERT(vec_ok(d.id) && vec_ok(n.id) && vec_ok(mid) && fld(w, 0, 5) == d.id && fld(w, 5, 5) == n.id, "mul elem: registers are v0-v31, Rd Rn fields");
+    V_ASSERT(fld(w, 31, 1) == 0 && fld(w, 29, 1) == U && fld(w, 24, 4) == 0xF && fld(w, 22, 2) == esz && fld(w, 12, 4) == opc && fld(w, 10, 1) == 0, "mul elem: 0 Q U s1111 size .. opcode H 0");
+    if (d.kind == 1) {
+      V_ASSERT(sat && n.kind == 1 && lng != 2 && d.el == n.el + (lng ? 1u : 0u), "mul elem scalar: saturating doubling forms only, matching scalar widths");
+      V_ASSERT(fld(w, 30, 1) == 1 && fld(w, 28, 1) == 1, "mul elem scalar: 01 U 11111");
+    } else {
+      V_ASSERT(n.kind == 0 && fld(w, 28, 1) == 0, "mul elem vector: vector operands, bit 28 clear");
+      if (lng) V_ASSERT(d.q == 1 && d.el == n.el + 1 && n.q == (lng == 2 ? 1u : 0u) && fld(w, 30, 1) == n.q, "mul elem long: destination has double-width elements, Q selects the source half");
+      else V_ASSERT(same_shape(d, n) && fld(w, 30, 1) == d.q, "mul elem: same arrangement, Q from it");
+    }
+    uint32_t H = fld(w, 11, 1), L = fld(w, 21, 1), M = fld(w, 20, 1);
+    if (esz == 1) {
+      V_ASSERT(mid < 16, "mul elem H: the indexed register is v0-v15 (Rm has 4 bits)");
+      V_ASSERT(fld(w, 16, 4) == mid, "mul elem H: Rm field");
+      V_ASSERT(midx < 8 && midx == ((H << 2) | (L << 1) | M), "mul elem H: index = H:L:M");
+    } else {
+      V_ASSERT(fld(w, 16, 5) == mid, "mul elem S: M:Rm is the register number");
+      V_ASSERT(midx < 4 && midx == ((H << 1) | L), "mul elem S: index = H:L");
+    }
+    V_WITNESS("mul-elem");
+  } else V_WITNESS("mul-elem-refused");
+}
+
 // LD1/ST1 (multiple structures) with 1..4 registers: no offset, post-index by register, post-index by immediate
 template<uint32_t N> static inline void ld1_body() {
   bool st = nondet_bool();
